@@ -209,3 +209,16 @@ package vm
 //@ type StateDB.CreateAccount
 //@   trusted
 //@   assigns nothing
+
+// ---- frame entry points as seen by the state transition (assumed here; see C07) -------------
+// A call or creation frame never returns more gas than it was given; its effects on the world
+// are arbitrary changes of the ghost state.
+//@ func EVM.Call
+//@   trusted
+//@   ensures leftOverGas <= gas
+//@   assigns bal, nonces, refundctr
+
+//@ func EVM.Create
+//@   trusted
+//@   ensures leftOverGas <= gas
+//@   assigns bal, nonces, refundctr
